@@ -78,7 +78,7 @@ def restore_evidence(saved):
         open(os.path.join(ev, n), "w").write(s)
 
 
-def evaluate(sid, sdir, props, tier):
+def evaluate(sid, sdir, props, tier, seed="1"):
     meta_p = os.path.join(sdir, "meta.json")
     meta = json.load(open(meta_p))
     d, dst = scratch_copy(os.path.join(sdir, "patch.diff"))
@@ -93,8 +93,8 @@ def evaluate(sid, sdir, props, tier):
             meta["confirmed"] = meta["tests_passed"] == 74 and meta["tests_failed"] == 0 and rc_with != 0 and rc_without == 0
         checks = meta.setdefault("checks", {})
         for prop in props:
-            rc, first = run_check(prop, dst, tier)
-            checks["%s %s" % (prop, tier)] = {"exit": rc, "verdict": {0: "missed", 1: "caught", 2: "harness-error"}.get(rc, str(rc)),
+            rc, first = run_check(prop, dst, tier, seed)
+            checks["%s %s" % (prop, tier) + ("" if seed == "1" else " seed=%s" % seed)] = {"exit": rc, "verdict": {0: "missed", 1: "caught", 2: "harness-error"}.get(rc, str(rc)),
                                              "first_failure": first}
     finally:
         shutil.rmtree(d, ignore_errors=True)
@@ -156,6 +156,7 @@ def main():
     ap.add_argument("--props")
     ap.add_argument("--only")
     ap.add_argument("--tier", default="quick")
+    ap.add_argument("--seed", default="1")
     a = ap.parse_args()
     saved = save_evidence()
     try:
@@ -168,7 +169,7 @@ def main():
                     continue
                 meta = json.load(open(os.path.join(sdir, "meta.json")))
                 props = a.props.split(",") if a.props else [meta["property"]]
-                m = evaluate(sid, sdir, props, a.tier)
+                m = evaluate(sid, sdir, props, a.tier, a.seed)
                 print("%s: %s" % (sid, "; ".join("%s -> %s" % (k, v["verdict"]) for k, v in m["checks"].items())))
         else:
             print("| seed | property | needs | checks |\n|---|---|---|---|")
